@@ -18,8 +18,24 @@ FactoredVector readFV(vio::Cursor & c);
 
 static Factors readFactors(vio::Cursor & c) { auto v = c.nextSizes(); return Factors(v.begin(), v.end()); }
 
+static void runMlpCall(const Factored::MDP::LinearProgramming & solver, vio::Cursor & c, vio::Out & o);
+
 bool mdpCase(const std::string & kind, vio::Cursor & c, vio::Out & o) {
-    if (kind != "mlp") return false;
+    if (kind == "mlp") {          // a fresh solver object, one model
+        Factored::MDP::LinearProgramming solver;
+        runMlpCall(solver, c, o);
+        return true;
+    }
+    if (kind == "mlpr") {         // mlpr <ncalls> {mlp spec}*  — ONE solver object used on several models
+        Factored::MDP::LinearProgramming solver;
+        const size_t n = c.nextSize();
+        for (size_t i = 0; i < n; ++i) { o << "CALL"; runMlpCall(solver, c, o); }
+        return true;
+    }
+    return false;
+}
+
+static void runMlpCall(const Factored::MDP::LinearProgramming & solver, vio::Cursor & c, vio::Out & o) {
     // mlp <S> <A> {agents nFeat {features}*}x|S| {rows cols vals}x|S| nR {tag actionTag rows cols vals}* discount <h>
     Factors S = readFactors(c), A = readFactors(c);
     DDNGraph graph(S, A);
@@ -56,7 +72,7 @@ bool mdpCase(const std::string & kind, vio::Cursor & c, vio::Out & o) {
     recStart();
     bool solved = true;
     std::tuple<Vector, Factored::MDP::QFunction> res;
-    try { res = Factored::MDP::LinearProgramming()(model, h); }
+    try { res = solver(model, h); }
     catch (const std::runtime_error &) { solved = false; }
     catch (...) { recStop(); throw; }
     recStop();
@@ -117,5 +133,4 @@ bool mdpCase(const std::string & kind, vio::Cursor & c, vio::Out & o) {
     auto fw = lp.solve(K, &obj);
     o << "FLAT" << (fw ? 1 : 0) << obj;
     if (fw) o.list(fw->data(), fw->data() + fw->size()); else o << (size_t) 0;
-    return true;
 }
